@@ -72,11 +72,14 @@ func c37cases(thorough bool) []c37case {
 			for _, m := range p.Modes {
 				for _, sb := range p.Bits {
 					cbs := []int{sb}
-					if thorough && !all {
+					if !all {
 						cbs = p.Bits // every pair of allowed (server, client) key sizes
 					}
 					for _, cb := range cbs {
 						for _, a := range []string{"anonymous", "username"} {
+							if !thorough && cb != sb && a != "anonymous" {
+								continue // quick: unequal key sizes with the anonymous token only
+							}
 							out = append(out, c37case{p.Name, int(m), sb, cb, a, all})
 						}
 					}
@@ -263,7 +266,7 @@ func runC37() {
 		return
 	}
 	cases := c37cases(evid.Thorough())
-	r.Rule(fmt.Sprintf("the complete set of %d configurations: 6 policies x applicable modes (None: None; others: Sign, SignAndEncrypt) x RSA key sizes within the policy's Part 7 limits (1024/2048 for Basic128Rsa15 and Basic256; 2048/3072/4096 for the SHA-256 policies; quick: client and server keys of the same size, thorough: every (server size, client size) pair, and additionally, with equal key sizes, a server that enables at once every pair whose policy admits its key size) x {anonymous, username}; one real server + one real client per configuration over loopback TCP; non-trivial = the token type is advertised on the selected endpoint and the whole sequence GetEndpoints/select/Connect/Read/Write/ReadBack/Close was executed, distinct by configuration", len(cases)))
+	r.Rule(fmt.Sprintf("the complete set of %d configurations: 6 policies x applicable modes (None: None; others: Sign, SignAndEncrypt) x RSA key sizes within the policy's Part 7 limits (1024/2048 for Basic128Rsa15 and Basic256; 2048/3072/4096 for the SHA-256 policies; every (server size, client size) pair (quick: unequal sizes with the anonymous token only), and in the thorough tier additionally, with equal key sizes, a server that enables at once every pair whose policy admits its key size) x {anonymous, username}; one real server + one real client per configuration over loopback TCP; non-trivial = the token type is advertised on the selected endpoint and the whole sequence GetEndpoints/select/Connect/Read/Write/ReadBack/Close was executed, distinct by configuration", len(cases)))
 	r.Assume("server and client run in one process over real loopback TCP with the default Go scheduler; the password of the username token is not checked by the server (it accepts any), so 'username' exercises password encryption and token encoding on the client and decoding on the server only")
 	start := time.Now()
 	deaths := evid.Sharded(r, 0, func(s evid.ShardInfo, w *evid.Run) {
